@@ -14,5 +14,7 @@ Definition toks_of (i : item) : list tok :=
   | IColon => [TP [58]]
   | ILBrack => [TP [91]]
   | IRBrack => [TP [93]]
+  | INew => [TId [110; 101; 119]]
+  | ICallOpen => [TP [40]]
   end.
 Definition toks (l : list item) : list tok := flat_map toks_of l.
